@@ -201,7 +201,11 @@ func ExecuteEmu(s *gen.Schema, doc *gen.Doc, opName string, vars map[string]inte
 		for _, e := range ex.fatal {
 			e.Pending, e.Optional, e.Group = false, false, ex.groups
 		}
-		ex.res.Errors = ex.fatal
+		// errors recorded before the escape are kept, later ones never happen
+		for _, e := range ex.res.Errors {
+			e.Pending, e.Optional, e.Group = false, true, 0
+		}
+		ex.res.Errors = append(ex.res.Errors, ex.fatal...)
 		for _, c := range ex.res.Calls {
 			c.Optional = true
 		}
